@@ -3,7 +3,7 @@
 
       range-set  ::= range ( logical-or range ) *
       logical-or ::= ( ' ' ) * '||' ( ' ' ) *
-      range      ::= hyphen | simple ( ' ' simple ) *
+      range      ::= hyphen | simple ( ' ' simple ) * | ''
       hyphen     ::= partial ' - ' partial
       simple     ::= primitive | partial | tilde | caret
       primitive  ::= ( '<' | '>' | '>=' | '<=' | '=' ) partial
@@ -92,11 +92,13 @@ Inductive set_text0 : list comp -> str -> Prop :=
 | S0_one c t : comp_text c t -> set_text0 [c] t
 | S0_cons c t w cs s : comp_text c t -> blank1 w -> set_text0 cs s -> set_text0 (c :: cs) (t ++ w ++ s).
 
-(** an alternative: a hyphen range (blanks around the hyphen, blanks after it) or a set *)
+(** an alternative: a hyphen range (blanks around the hyphen, blanks after it), a set, or nothing at all
+    (the blanks around an empty alternative are those of the neighbouring [||] / of the ends of the text) *)
 Inductive alt_text : alt -> str -> Prop :=
 | AT_hyphen lo hi t1 w1 w2 t2 w3 : partial_text t1 lo -> blank1 w1 -> blank1 w2 -> partial_text t2 hi -> blank_str w3 ->
     alt_text (AHyphen lo hi) (t1 ++ w1 ++ 45 :: w2 ++ t2 ++ w3)
-| AT_set cs s : set_text cs s -> alt_text (ASet cs) s.
+| AT_set cs s : set_text cs s -> alt_text (ASet cs) s
+| AT_empty : alt_text (ASet []) [].
 
 (** alternatives joined by [||]; blanks before [||] belong to the alternative on its left *)
 Inductive ast_tail_text : ast -> str -> Prop :=
